@@ -68,6 +68,27 @@ CLAIMS = {
             "NOT decided: exact preimage counts (unbiasedness), Fill::try_fill byte view."),
 }
 
+# rule D (third session): per-property clause decided by the index-sensitive dependence analysis (analysis/deps.py)
+D_CLAUSES = {
+    "C01": "digit k of every add / sub / neg / abs / abs_diff / midpoint / carrying form can vary with digits j <= k of each operand (and the carry-in), the overflow flag / Some-None decision with every digit (digit counts 1-4)",
+    "C02": "digit k of every product form with digits <= k of both operands, the flag with every digit, the high half of widening_mul / carrying_mul with every digit of every operand",
+    "C03": "the unsigned quotient digit k with dividend digits >= k and every divisor digit (decided only where the analysis does not give up: short divisors)",
+    "C05": "digit k of x << s / x >> s / rotations with the source digits at distance floor(s/w) (and their neighbour when w does not divide s, and the sign digit for arithmetic right shifts), for 7 amounts per width",
+    "C06": "bitwise lanes, counts / is_zero / is_power_of_two / bits with every digit, swap_bytes / reverse_bits with the mirrored digit, bit / set_bit with the addressed digit, next_power_of_two with every digit",
+    "C07": "eq / ne / lt / le / gt / ge / cmp / partial_cmp / max / min / clamp with every digit of every operand; is_negative with the top digit, is_positive / signum digit 0 with every digit",
+    "C08": "digit k of every pow form (exponents 1, 2, 3, 5, 8, 2^31) with base digits <= k, the overflow decision with every digit",
+    "C09": "digit k of every bnum->bnum cast (all 64 family pairs at 10 (N, M) pairs) with the source digits whose bits overlap it and with the sign digit beyond the source width; primitive <-> bnum casts with the operand / the low digits",
+    "C10": "from_radix_be / from_radix_le: the Some/None decision with every numeral, digit 0 of the value with the least significant numeral (every numeral for radices that are not powers of two); radix 256 with every byte beyond the width",
+    "C13": "the Ok/Err decision of TryFrom<bnum> for every primitive and of BTryFrom at (N, M) pairs with exactly the digits that decide representability, the converted value with the overlapping digits",
+    "C15": "from_be_slice / from_le_slice at 9 slice lengths per width: digit k with its own bytes (and the most significant byte for signed extension), the Some/None decision with every excess byte (and the retained sign byte); to_be / to_le lanes",
+    "C17": "every by-value / by-reference / assign operator form of + - * & | ^ ! and unary -, Add/Div/Rem<digit>, and << >> with the 12 primitive amount types, with the same digits as the inherent operation",
+    "C18": "the num-traits Checked*/Wrapping*/Saturating*/Overflowing* and MulAdd entry points, PrimInt counts / swaps / endianness / rotations / shifts / pow, Signed, Zero/One, is_even/is_odd with the digits of the corresponding primitive operation",
+    "C19": "the Some/None decision of to_uN / to_iN with the digits that decide representability, the value with the low digits; from_uN / from_iN / from_fN digits with the operand",
+    "C20": "every digit of a Standard sample with the RNG output",
+}
+D_TECH = "; index-sensitive dependence analysis (constant propagation of loop counters at concrete digit counts, per-digit may-dependence sets, control dependence through post-dominators)"
+D_NOTE = " Rule D decides only WHICH input digits / bytes can reach WHICH output digits (a necessary condition); the values the loops compute remain undecided."
+
 NOT_APPLICABLE = {}
 
 
@@ -78,6 +99,10 @@ def main():
         if p not in CLAIMS:
             continue
         fam, tech, dref, text, note = CLAIMS[p]
+        if p in D_CLAUSES:
+            tech += D_TECH
+            text += "; D (inside the digit loops, which the other rules do not enter): " + D_CLAUSES[p]
+            note += D_NOTE
         level = "proof" if p == "C16" else "other"
         checks.append({
             "property_id": p,
@@ -107,7 +132,7 @@ def main():
                   "add_only": True},
         "engines": [{"name": "bnum-static", "path": "/verif/check",
                      "serves_properties": sorted(CLAIMS),
-                     "kind_free_text": "rustc_private MIR fact driver (/verif/driver) + Python rule library (/verif/analysis, /verif/rules): forwarding normal forms (F), guard-tree evaluation on representatives (G), panic-effect reachability (P+/P-, guard sensitive), information flow / control dependence (T), structure queries (S), witness crate (W)"}],
+                     "kind_free_text": "rustc_private MIR fact driver (/verif/driver) + Python rule library (/verif/analysis, /verif/rules): forwarding normal forms (F), guard-tree evaluation on representatives (G), index-sensitive dependence analysis of the digit loops (D), panic-effect reachability (P+/P-, guard sensitive), information flow / control dependence (T), structure queries (S), witness crate (W)"}],
         "checks": checks,
         "notes": "Family: static analysis only. /repo carries five unguarded `fix:` commits (rotate amounts, Integer floor division, nth_root overflow, float casts in (0.5,1), zero-padded numerals in power-of-two radices) recorded in known_findings.json. UNDECIDED obligations never fail a check.",
         "not_applicable": na,
